@@ -500,6 +500,50 @@ def cli_model(chk):
     chk.add_tlc("MPCli", r, "StrTotal=TRUE NLines=4 + liveness Exits")
 
 
+FUZZ_BASE = [
+    'A = EEMSRead(InFileName = "in.csv", InFieldName = a, MissingVal = -9999)\nF = CvtToFuzzy(InFieldName = A, TrueThreshold = 1.5e2, FalseThreshold = -.5)\n'
+    'U = FuzzyWeightedUnion(InFieldNames = [F, F], Weights = [1, 2.5], Metadata = [Color: "Blue", k: v])\n# comment\nW = EEMSWrite(OutFileName = out.csv, OutFieldNames = [A, U],)\n',
+    "READ(InFileName = in.csv, InFieldName = a)\nCVTTOFUZZY(InFieldName = a, NewFieldName = f, TrueThreshold = 2, FalseThreshold = 0)\n",
+    "X = Sum(InFieldNames = [[A], ['b \\' c'], C:\\x y\\z, 3d, -1, +.5, 1.e3])\r\nY = Copy(\r\n  InFieldName = X\r\n)\r\n",
+]
+FUZZ_CHARS = list("()[]=,:#\"'\\ \n\t\r.-+eE09aZ_") + ["\u00e9", "\u4e2d", "\U0001f600", "\x00", "\x0c", "True", "False", "[[", "]]", ",,", "==", "\\\"", "1e", "-"]
+
+
+def text_fuzz(chk, rounds):
+    """unconstrained edits around valid files: whatever the text, parsing and loading end in success, SyntaxError or an MPilot error"""
+    import random
+    from mpilot.program import Program
+    from mpilot.parser.parser import Parser
+    from mpilot.exceptions import MPilotError
+
+    rng = random.Random(core.SEED + 131)
+    shown = 0
+    for it in range(rounds):
+        t = rng.choice(FUZZ_BASE)
+        for _ in range(rng.randint(1, 3)):
+            pos = rng.randint(0, len(t))
+            op = rng.random()
+            if op < 0.35:
+                t = t[:pos] + rng.choice(FUZZ_CHARS) + t[pos:]
+            elif op < 0.7:
+                t = t[:pos] + t[pos + rng.randint(1, 3):]
+            elif op < 0.85:
+                t = t[:pos] + t[pos:pos + rng.randint(1, 6)] * 2 + t[pos:]
+            else:
+                t = t[:pos]
+        chk.cov["evaluations"] += 1
+        for stage, fn in (("parse", lambda: Parser().parse(t)), ("load", lambda: Program.from_source(t, libraries=decl.CSV_LIBS, working_dir="/nonexistent"))):
+            try:
+                fn()
+            except (SyntaxError, MPilotError):
+                pass
+            except BaseException as e:
+                chk.finding("C13:%s:EscapedClass:fuzz:%s" % (stage, type(e).__name__), "%s of an edited command file raised %s: %s" % (stage, type(e).__name__, str(e)[:120]),
+                            {"text": t})
+                break
+    chk.cov["text_fuzz_cases"] = rounds
+
+
 def check_C13(tier):
     chk = core.Check("C13", tier)
     core.sut()
@@ -517,6 +561,7 @@ def check_C13(tier):
     for name, src, extra in RUNTIME_SCENARIOS:
         cjobs.append((len(cjobs), name, src, extra, False))
     recs = run_cli(chk, "C13", cjobs, libs, {"C13"})
+    text_fuzz(chk, 3000 if tier == "quick" else 60000)
     for r in recs:
         if r["name"] in ("mixed-shapes-1d", "csv-non-numeric", "matrix") or len(chk.cov["samples"]) < 2:
             chk.sample({"scenario": r["name"], "source": r["source"], "api_outcome": [r["outcome"], r["cls"], r["lineno"]], "cli_exit": r["exit"], "stderr": r["stderr"][:300]}, cap=6)
